@@ -159,10 +159,13 @@ impl BuildJob<'_> {
             sf.save(&mut ptx)?;
             // Fall through and treat it the same as a static file.
         }
-        // (Whether something is there is what lstat() says, as for the stamp:
-        // a symbolic link that leads nowhere is still the user's file.)
+        // (Whether something is there, and whether it is a directory, is what
+        // lstat() says, as for the stamp: a symbolic link is the user's file,
+        // whether it leads nowhere or to a directory.)
         if !newstamp.is_missing()
-            && !Path::new(&t).join(".").is_dir()
+            && !Path::new(&t)
+                .symlink_metadata()
+                .map_or(false, |m| m.is_dir())
             && (sf.is_override || !sf.is_generated())
         {
             // an existing source file that was not generated by us.
